@@ -32,6 +32,16 @@ ENCODERS = [  # (file, qualified name of the recursive walk, name of the node pa
 ]
 
 
+def encoder_fn(repo, rel, q):
+    """the tree walker named in ENCODERS; the Jigg writer is looked up by role (it has been a closure of a method, a
+    method, and a closure of a module function)"""
+    mod = repo.module(rel)
+    if rel.endswith('jigg_xml.py'):
+        from .c15 import _jigg_roles
+        return mod, _jigg_roles(mod)[1]
+    return mod, mod.get(q)
+
+
 def node_param(fn):
     names = [a.arg for a in fn.args.args]
     for cand in ('node', 'tree'):
@@ -132,8 +142,7 @@ def r_conll_heads(repo, rep, R='R7.1'):
 def r_polarity(repo, rep, R='R7.2'):
     n = 0
     for rel, q in ENCODERS:
-        mod = repo.module(rel)
-        fn = mod.get(q)
+        mod, fn = encoder_fn(repo, rel, q)
         p = node_param(fn)
         flags = set()
         for st, o in SymExec(fn, unroll=1).run():
@@ -216,8 +225,7 @@ def _parents_until(n, stop):
 def r_traversal(repo, rep, R='R7.4'):
     n = 0
     for rel, q in ENCODERS:
-        mod = repo.module(rel)
-        fn = mod.get(q)
+        mod, fn = encoder_fn(repo, rel, q)
         p = node_param(fn)
         w = '%s:%s %s' % (rel, fn.lineno, q)
         key = '%s:%s' % (rel, q)
